@@ -27,7 +27,7 @@ MkOpt(s, r) ==
    ptrace |-> Bit(s, 4), stop |-> Bit(s, 5), sync |-> Bit(s, 6), ucg |-> Bit(s, 7), pivot |-> Bit(s, 8),
    user |-> Bit(r, 0), pid |-> Bit(r, 1), mnt |-> Bit(r, 2) \/ Bit(s, 8), uts |-> Bit(r, 3), ipc |-> Bit(r, 4),
    net |-> Bit(r, 5), cgns |-> Bit(r, 6), cgfd |-> Bit(r, 7), amb |-> Bit(r, 8),
-   grp |-> "several", gmap |-> "allow"]
+   grp |-> "several", gmap |-> "allow", hn |-> "short", dn |-> "long"]
 
 \* Credential / gid-mapping dimension x in 0..7 (only meaningful with cred / user):
 \*   grp  = what Credential.Groups asks for: "several" | "one" | "empty" (no supplementary groups) |
@@ -39,17 +39,24 @@ MkOpt(s, r) ==
 \* (fork_child_linux.go:123); every other deny combination is refused by the kernel (a C07 recipe), so
 \* MkOptX repairs it to "allow" -- only startable option sets are generated for C04.
 GrpOf(x)  == CASE x % 4 = 0 -> "several" [] x % 4 = 1 -> "one" [] x % 4 = 2 -> "empty" [] OTHER -> "nosg"
-MkOptX(s, r, x) ==
+\* UTS dimension y in 0..8 (only meaningful with uts): HostName and DomainName are INDEPENDENT requests,
+\*   hn, dn in "none" (field empty: the name the new UTS namespace inherited stays) | "short" | "long";
+\* the drivers use four strings of four different lengths and different content.  Default y = 7:
+\* short host name, long domain name.
+NameOf(k) == CASE k = 0 -> "none" [] k = 1 -> "short" [] OTHER -> "long"
+YDefault == 7
+MkOptXY(s, r, x, y) ==
   LET o == MkOpt(s, r)
       g == GrpOf(x)
       m == IF x \div 4 = 1 /\ (~o.cred \/ g \in {"empty", "nosg"}) THEN "deny" ELSE "allow"
-  IN [o EXCEPT !.grp = g, !.gmap = m]
+  IN [o EXCEPT !.grp = g, !.gmap = m, !.hn = NameOf(y % 3), !.dn = NameOf(y \div 3)]
+MkOptX(s, r, x) == MkOptXY(s, r, x, YDefault)
 \* the drivers give a gid map exactly when a user namespace is requested
 GidMapGiven(o) == o.user
 SetgroupsDenied(o) == o.user /\ o.gmap = "deny"
 
-\* Host name / domain name are requested exactly when a UTS namespace is (without one
-\* sethostname would rename the host); a work directory is always requested.
+\* Host name / domain name are requested only when a UTS namespace is (without one sethostname would
+\* rename the host), each independently (hn, dn); a work directory is always requested.
 Sane(o) == o.pivot => o.mnt
 
 \* short signature of the flags that select code sites (key of findings)
@@ -104,7 +111,8 @@ Guard(n, o) ==
     [] n = "ctty"          -> FALSE                     \* CTTY is never requested by the drivers
     [] n = "mount_root"    -> o.mnt
     [] n \in {"pivot_tmpfs", "pivot_chdir", "pivot_root"} -> o.pivot
-    [] n \in {"hostname", "domainname"} -> o.uts        \* requested iff a UTS namespace is
+    [] n = "hostname"      -> o.uts /\ o.hn # "none"   \* names are only ever requested with a UTS namespace
+    [] n = "domainname"    -> o.uts /\ o.dn # "none"
     [] n = "nnp"           -> o.nnp \/ o.seccomp
     [] n \in {"dropA_secbits", "dropA_capset"} -> Drop(o) /\ ~o.ucg
     [] n \in {"syncA_write", "syncA_read"} -> PS(o) /\ o.sync
@@ -280,8 +288,8 @@ PostViol(o, x) ==
 \cup (IF o.cred /\ o.grp # "nosg" /\ ~SetgroupsDenied(o) /\ x.groups # "req" THEN {"groups"} ELSE {})
 \cup (IF x.sid # "own" THEN {"own-session"} ELSE {})
 \cup (IF x.cwd # "req" THEN {"workdir"} ELSE {})
-\cup (IF o.uts /\ x.host # "req" THEN {"hostname"} ELSE {})
-\cup (IF o.uts /\ x.domain # "req" THEN {"domainname"} ELSE {})
+\cup (IF o.uts /\ o.hn # "none" /\ x.host # "req" THEN {"hostname"} ELSE {})
+\cup (IF o.uts /\ o.dn # "none" /\ x.domain # "req" THEN {"domainname"} ELSE {})
 \cup (IF x.ns # ReqNs(o) THEN {"namespaces"} ELSE {})
 Post(o, x) == PostViol(o, x) = {}
 =============================================================================
